@@ -94,6 +94,13 @@ claim("C03", "other",
       "DESIGN.md §3 C03")
 
 
+claim("C11", "other",
+      "HIR table extraction over the copy-pasted per-type closure families (tag agreement between the dispatch key and every Value::U test / FeelType::U construction reached), classification-table check, must-call (coerced) and loop-shape rules",
+      "Static rule checking: every `match` arm keyed by a simple FEEL type (a FeelType::K pattern or its typeRef name) in model-evaluator's builders - 7 families, 56 arms, following the per-type builder function each arm calls and its closure - may only test the value for Value::K and build FeelType::K; each family covers all eight simple kinds; the four defining facts of an item definition map to the ItemDefinitionType the specification gives (all 12 feasible combinations); decision, decision-service and knowledge-model results flow through FeelType::coerced with the declared output type (knowledge models via a function value carrying the result type, coerced at the three invocation sites); collection evaluators test for a list and check every item inside the loop, simple evaluators apply allowed values on the success path. Decides exactly the copy-slip the property describes; allowed-values semantics and values are not decided.",
+      "Trusts rustc's HIR. Kind names are matched between Value and FeelType variants by name (same vocabulary in dmntk_feel); typeRef names are the TCK spellings listed in props/c11.py.",
+      "DESIGN.md §3 C11")
+
+
 def main():
     checks = []
     for pid in sorted(CLAIMED):
